@@ -161,3 +161,17 @@ package token
 //@   property C03 C12 C14
 //@   requires [wired] f.prepender != nil
 //@   ensures [no_alias_at_registration] forall k int :: old(tlen()) <= k && k < tlen() ==> !evIs(k, "internal/pkg/token:aliaser.Alias")
+
+// ---- constructors
+//@ func NewChunker
+//@   property C03
+//@   ensures [nonnil] result != nil
+//@ func NewStrategyFactory
+//@   property C03
+//@   ensures [keeps_the_strategies_in_order] result != nil && result.strategies == strategies
+//@ func NewFuncRegisterer
+//@   property C03 C14
+//@   ensures [fields_as_given] result != nil && result.prepender == p && result.aliaser == a
+//@ func NewTokenizer
+//@   property C03
+//@   ensures [fields_as_given] result != nil && result.chunker == ch && result.factory == f
